@@ -6,9 +6,6 @@ namespace Kopf.C13
 
 /-! ### keep-alive arithmetic -/
 
-/-- the margin the pinger leaves before its own record expires, in seconds: `min 5 (L − 1)`. -/
-def margin (L : Int) : Int := min 5 (L - 1)
-
 theorem kaSleep_le (L j : Int) (hL : 2 ≤ L) (h5 : 5 ≤ j) : kaSleep L j ≤ L - margin L := by
   unfold kaSleep margin
   omega
@@ -28,25 +25,6 @@ theorem kaSleepT_ge2 (u L j : Int) (hL : 2 ≤ L) : kaSleepT u L j = kaSleep L j
 theorem kaSleepT_one (u j : Int) : kaSleepT u 1 j = u / 2 := by
   unfold kaSleepT
   rw [if_neg (by omega), if_pos (by omega), Int.one_mul]
-
-/-- the margin in ticks: `min(5, L−1)` seconds for `L ≥ 2`, the other half second for `L = 1`. -/
-def marginT (u L : Int) : Int := if 2 ≤ L then margin L * u else u - u / 2
-
-/-- One round of the pinger. The record built at `t` (lastseen = `t`) reaches the server `a` ticks
-    later; the whole `touch()` call takes `lat ≥ a`; then the pinger sleeps `kaSleepT` ticks. -/
-structure Round where
-  lat : Int
-  a : Int
-  jitter : Int
-
-/-- when the next record is built -/
-def nextTouch (u L : Int) (t : Int) (r : Round) : Int := t + r.lat + kaSleepT u L r.jitter
-
-/-- every next record reaches the server strictly before the deadline of the one it replaces. -/
-def Renewed (u L : Int) : Int → List Round → Prop
-  | _, [] => True
-  | _, [_] => True
-  | t, r :: r' :: rs => nextTouch u L t r + r'.a < t + L * u ∧ Renewed u L (nextTouch u L t r) (r' :: rs)
 
 theorem renewed_of_bounds (u L B : Int) (hu : 0 < u) (hL : 1 ≤ L) (hB : 2 * B < marginT u L) :
     ∀ (rs : List Round) (t : Int),
